@@ -52,6 +52,14 @@ func runSourceFixed(e *ev.Env, c *ev.Case, cfg cfgT, variant int) {
 	}
 	// pre-judge the one thing this family is about, with its own signature
 	h.w.now = time.Now()
+	if st1, _ := h.w.status(s1); st1 != stAlive {
+		e.Stat("source-probes-skipped(session not surely alive)", 1)
+		return
+	}
+	if st2, _ := h.w.status(s2); st2 != stAlive {
+		e.Stat("source-probes-skipped(session not surely alive)", 1)
+		return
+	}
 	probe := &reqObs{}
 	h.cur = &script{MW: rq.MW, Ops: nil, Obs: probe}
 	line := fmt.Sprintf("%s c0 %s present=%s:%s +cookie %s=%s", stamp(h.w.now), map[bool]string{true: "mw", false: "store"}[mw], cfg.Source, rq.Presented, cfg.Name, rq.Cookie)
@@ -104,6 +112,11 @@ func runSource(e *ev.Env, c *ev.Case) {
 		} else {
 			cfg.Source, cfg.Name = "query", "sid"
 		}
+	}
+	// this family is not about expiry: both sessions must be alive at the probe
+	cfg.Idle = time.Duration(r.Range(2, 5)) * time.Second
+	if cfg.Abs > 0 {
+		cfg.Abs = cfg.Idle + time.Duration(r.Range(0, 3))*time.Second
 	}
 	runSourceFixed(e, c, cfg, r.Intn(3))
 }
